@@ -256,7 +256,6 @@ func (hc *httpCache) saveToStore() (err error) {
 }
 
 func (hc *httpCache) get() (status Status, done chan waitResult, data *HTTPResponse) {
-	now := nowUnix()
 	// 如果首次创建并且设置store
 	if hc.status == StatusUnknown {
 		// 如果从缓存中读取失败，暂忽略出错信息
@@ -270,6 +269,8 @@ func (hc *httpCache) get() (status Status, done chan waitResult, data *HTTPRespo
 	}
 
 	// 如果缓存已过期，设置为StatusUnknown
+	// （从store读取数据有可能较慢，因此读取完成后才获取当前时间）
+	now := nowUnix()
 	if hc.expiredAt != 0 && hc.expiredAt < now {
 		hc.status = StatusUnknown
 		// 将有效期重置（若不重置则导致hs.status每次都被重置为Unknown)
